@@ -192,7 +192,8 @@ def run(ctx):
             for bb, j, s in kb.stmts():
                 d = s["d"]
                 pr = place_proj(d)
-                if place_local(d) == 1 and any(isinstance(e, dict) and e.get("n") == "key" for e in pr) and "*" in pr:
+                # `*self.<cell> = Some(key)`: a write through a reference held in a field of the visitor (the shared key cell)
+                if place_local(d) == 1 and any(isinstance(e, dict) and "f" in e for e in pr) and "*" in pr:
                     stores.append((bb, j, s))
             fwd = [(bb, t) for bb, t in kb.calls() if (t["call"].get("trait") or "") == sw.DE + "Visitor" and t["call"]["name"] == m]
             good = bool(stores) and len(fwd) == 1
@@ -208,6 +209,17 @@ def run(ctx):
     # R5.3 terminal
     if terminal:
         tb = method_of(c, terminal, "deserialize_ignored_any")
+        if tb is not None:
+            from .. import inline as _inline
+            tb = _inline.expand(c, tb, depth=2, pred=lambda cb: cb.d.get("vis") != "pub" and cb.id.startswith("conjure_serde::de::unknown_fields_behavior"))
+        tadt = ctx.F.adt(terminal) or {}
+        troles = {}
+        for f_ in (tadt.get("variants") or [{}])[0].get("fields", []):
+            ts_ = tystr(f_["ty"])
+            if "Option" in ts_ and "str" in ts_:
+                troles[f_["name"]] = "key"
+            elif "[&" in ts_ and "str" in ts_:
+                troles[f_["name"]] = "fields"
         if tb is None:
             ctx.violation("R5.3", c.name, "terminal|missing", f"{terminal} does not intercept deserialize_ignored_any")
         else:
@@ -221,7 +233,7 @@ def run(ctx):
             if len(uf) == 1:
                 bb, t = uf[0]
                 tr = Tracer(tb)
-                ksrc = tr.sources(t["args"][0])
+                ksrc = Tracer(tb, through_calls=True).sources(t["args"][0])
                 fsrc = tr.sources(t["args"][1])
                 kfields = set()
                 kconst = set()
@@ -231,6 +243,8 @@ def run(ctx):
                         kfields |= src_fields(s_)
                     elif r[0] == "const":
                         kconst.add(r)
+                    elif r[0] == "call" and tb.blocks[r[1]]["t"]["call"]["name"] in ("as_deref", "unwrap_or", "as_ref", "deref", "map", "unwrap_or_else", "as_str", "borrow"):
+                        continue   # looked through: its operands are among the sources as well
                     else:
                         kfields.add("?")
                 ffields = set()
@@ -239,6 +253,8 @@ def run(ctx):
                 cfg = CFG(tb)
                 errs = [(b_, j, s) for b_, j, s in tb.stmts() if place_local(s["d"]) == 0 and s["r"].get("variant") == "Err"]
                 flows = all(tr.sources(s["r"]["ops"][0]) == {("call", bb)} for _, _, s in errs) and errs
+                kfields = {troles.get(x, x) for x in kfields}
+                ffields = {troles.get(x, x) for x in ffields}
                 ok = kfields == {"key"} and ffields == {"fields"} and flows and all(cfg.postdominates(e[0], 0) for e in errs)
                 ctx.check(ok, "R5.3", tb.loc(t["ln"]), "terminal|unknown_field-args",
                           f"terminal error must be Error::unknown_field(<recorded key>, <declared fields>) on every path; key derives from {sorted(kfields)} / consts {len(kconst)}, fields from {sorted(ffields)}",
